@@ -93,9 +93,15 @@ Definition rr_matches (a b : rr) : bool :=
   beq (r_name a) (r_name b) && (r_type a =? r_type b) && (r_class a =? r_class b)
   && Bool.eqb (r_flush a) (r_flush b) && beq_rdata (r_data a) (r_data b).
 
-(* suppressed_by_answer / suppressed_by *)
+(* suppressed_by_answer / suppressed_by: the cache-flush bit is not part of the identity of a
+   record here (known answers are listed without it): if the bits differ the other record is
+   compared with the bit set as in mine *)
+Definition with_flush (r : rr) (f : bool) : rr :=
+  mkRR (r_name r) (r_type r) (r_class r) f (r_ttl r) (r_data r).
 Definition suppressed_by_answer (mine other : rr) : bool :=
-  rr_matches mine other && suppress_ttl_test (r_ttl other) (r_ttl mine).
+  (if Bool.eqb (r_flush other) (r_flush mine) then rr_matches mine other
+   else rr_matches mine (with_flush other (r_flush mine)))
+  && suppress_ttl_test (r_ttl other) (r_ttl mine).
 Definition suppressed_by (mine : rr) (m : msg) : bool :=
   existsb (suppressed_by_answer mine) (m_answers m).
 
@@ -122,6 +128,8 @@ Definition og_count_known (og : outgoing) : outgoing :=
 Definition add_question (og : outgoing) (name : bytes) (ty : N) : outgoing :=
   mkOut (og_flags og) (og_id og) (og_multicast og) (og_questions og ++ [(name, ty)]) (og_answers og)
         (og_additionals og) (og_known og).
+Definition set_multicast (og : outgoing) (mc : bool) : outgoing :=
+  mkOut (og_flags og) (og_id og) mc (og_questions og) (og_answers og) (og_additionals og) (og_known og).
 Definition set_id (og : outgoing) (id : N) : outgoing :=
   mkOut (og_flags og) id (og_multicast og) (og_questions og) (og_answers og)
         (og_additionals og) (og_known og).
@@ -163,14 +171,17 @@ Definition add_answer_with_additionals (og : outgoing) (m : msg) (s : service) (
 
 (* ---- add_answer_of_service --------------------------------------------------------------- *)
 
-Definition add_answer_of_service (og : outgoing) (m : msg) (entry_name : bytes) (s : service)
-    (qtype : N) (intf_addrs : list ip) : outgoing :=
-  let og1 := if (qtype =? TY_SRV) || (qtype =? TY_ANY)
-             then fst (add_answer og m (srv_record entry_name s (s_host s))) else og in
+(* add_answer_of_service_as: `hostname` is the host name the service currently holds; the address
+   additionals are added only if the SRV answer was added *)
+Definition add_answer_of_service_as (og : outgoing) (m : msg) (entry_name : bytes) (s : service)
+    (hostname : bytes) (qtype : N) (intf_addrs : list ip) : outgoing :=
+  let '(og1, srv_added) :=
+    if (qtype =? TY_SRV) || (qtype =? TY_ANY)
+    then add_answer og m (srv_record entry_name s hostname) else (og, false) in
   let og2 := if (qtype =? TY_TXT) || (qtype =? TY_ANY)
              then fst (add_answer og1 m (txt_record entry_name s)) else og1 in
-  if qtype =? TY_SRV
-  then fold_left (fun o a => add_additional o (addr_record (s_host s) s a)) intf_addrs og2
+  if (qtype =? TY_SRV) && srv_added
+  then fold_left (fun o a => add_additional o (addr_record hostname s a)) intf_addrs og2
   else og2.
 
 (* ---- handle_query ------------------------------------------------------------------------ *)
@@ -190,16 +201,20 @@ Record hq_input : Type := mkHq {
   h_src_ip : ip;
   h_src_port : N }.
 
-(* the body of `for service in self.my_services.values()` of the PTR arm *)
-Definition ptr_step (inp : hq_input) (q : question) (is_ipv4 : bool) (og : outgoing) (e : entry) : outgoing :=
-  if negb (is_announced (e_status e)) then og
+(* the body of `for service in self.my_services.values()` of the PTR arm; `seen` is the set
+   meta_types of the service types already listed for this question *)
+Definition ptr_step (inp : hq_input) (q : question) (is_ipv4 : bool) (st : outgoing * list bytes) (e : entry)
+    : outgoing * list bytes :=
+  let '(og, seen) := st in
+  if negb (is_announced (e_status e)) then st
   else
     let s := e_svc e in
     if matches_type_or_subtype s (q_name q)
-    then add_answer_with_additionals og (h_msg inp) s (h_intf inp) (h_name_changes inp) is_ipv4
+    then (add_answer_with_additionals og (h_msg inp) s (h_intf inp) (h_name_changes inp) is_ipv4, seen)
     else if beq (q_name q) META_QUERY
-    then fst (add_answer og (h_msg inp) (ptr_record (q_name q) (s_other_ttl s) (s_ty s)))
-    else og.
+    then if mem (s_ty s) seen then st
+         else (fst (add_answer og (h_msg inp) (ptr_record (q_name q) (s_other_ttl s) (s_ty s))), s_ty s :: seen)
+    else st.
 
 (* the body of the loop of the A / AAAA / ANY arm *)
 Definition addr_step (inp : hq_input) (q : question) (og : outgoing) (e : entry) : outgoing :=
@@ -219,19 +234,21 @@ Definition addr_step (inp : hq_input) (q : question) (og : outgoing) (e : entry)
 Definition question_step (inp : hq_input) (is_ipv4 : bool) (og : outgoing) (q : question) : outgoing :=
   let qtype := q_type q in
   if qtype =? TY_PTR then
-    fold_left (ptr_step inp q is_ipv4) (h_services inp) og
+    fst (fold_left (ptr_step inp q is_ipv4) (h_services inp) (og, []))
   else
     let og1 := if (qtype =? TY_A) || (qtype =? TY_AAAA) || (qtype =? TY_ANY)
                then fold_left (addr_step inp q) (h_services inp) og else og in
     let query_name := lower (q_name q) in
-    match find (fun e => beq (resolve_name (h_name_changes inp) (e_key e)) query_name) (h_services inp) with
+    match find (fun e => beq (lower (resolve_name (h_name_changes inp) (s_fullname (e_svc e)))) query_name)
+               (h_services inp) with
     | None => og1
     | Some e =>
       if negb (is_announced (e_status e)) then og1
       else
         let intf_addrs := intf_addrs_of is_ipv4 (e_svc e) (h_intf inp) in
         if is_nil intf_addrs then og1
-        else add_answer_of_service og1 (h_msg inp) (q_name q) (e_svc e) qtype intf_addrs
+        else add_answer_of_service_as og1 (h_msg inp) (q_name q) (e_svc e)
+               (resolve_name (h_name_changes inp) (s_host (e_svc e))) qtype intf_addrs
     end.
 
 (* what leaves the daemon *)
@@ -281,8 +298,10 @@ Definition handle_query (inp : hq_input) : option packet :=
                         then Some (h_src_ip inp, h_src_port inp) else None in
     let out2 := match unicast_dest with
                 | Some _ =>
-                  clear_cache_flush_bits
-                    (fold_left (fun o q => add_question o (q_name q) (q_type q)) (m_questions (h_msg inp)) out1)
+                  set_multicast
+                    (clear_cache_flush_bits
+                       (fold_left (fun o q => add_question o (q_name q) (q_type q)) (m_questions (h_msg inp)) out1))
+                    legacy_multicast_flag
                 | None => out1
                 end in
     send_response out2 (h_intf inp) is_ipv4 matched_source unicast_dest
